@@ -29,6 +29,9 @@ deriving BEq
 structure Cache where
   key : Option EngKey := none
   eng : Option (Engine Float) := none
+  /-- engines built earlier in this process (most recent first, at most four): a session that alternates between engine sizes does
+  not rebuild the large tables -/
+  older : List (EngKey × Engine Float) := []
 
 def mkEngine (lb lu : Nat) : Engine Float :=
   let T := Driver.Angular.mkTabs lb lu
@@ -133,7 +136,13 @@ def feed (cache : Cache) (q : Req) (ts : List String) : Cache × Req :=
     | some lb, some lu, some dv =>
       let key : EngKey := ⟨lb + dv, lu⟩
       if cache.key == some key then (cache, { q with lb := lb + dv, lu := lu })
-      else ({ key := some key, eng := some (mkEngine (lb + dv) lu) }, { q with lb := lb + dv, lu := lu })
+      else
+        let kept := match cache.key, cache.eng with
+          | some k, some e => ((k, e) :: cache.older).take 4
+          | _, _ => cache.older
+        match kept.find? fun p => p.1 == key with
+        | some p => ({ key := some key, eng := some p.2, older := kept.filter fun r => !(r.1 == key) }, { q with lb := lb + dv, lu := lu })
+        | none => ({ key := some key, eng := some (mkEngine (lb + dv) lu), older := kept }, { q with lb := lb + dv, lu := lu })
     | _, _, _ => fail
   | "ecp" :: rest => match parseEcp rest with
     | some e => (cache, { q with ecp := some e })
